@@ -8,5 +8,5 @@ cp -a /repo/. $d/ && rm -rf $d/.git
 if [ -z "$NOSUITE" ]; then
   (cd $d && go build ./... && go test -vet=off -count=1 ./... ) >/dev/null 2>&1 || { echo "$name: SUITE-FAILS"; exit 3; }
 fi
-out=$(/verif/bin/goosecheck -all -repo $d -verif /verif 2>&1)
+out=$(${GC:-/verif/bin/goosecheck} -all -repo $d -verif /verif 2>&1)
 if echo "$out" | grep -q "^SILENT"; then echo "$name: silent"; else echo "$name: ALARM $(echo "$out" | grep '^ALARM\|^LOAD\|anic' | awk '{print $2" "$3}' | sort -u | tr '\n' ',' | cut -c1-300)"; echo "$out" | grep '^ALARM\|^LOAD\|anic' | head -${EV_LINES:-4} | cut -c1-260 | sed 's/^/      /'; fi
